@@ -2,4 +2,4 @@ From Coq Require Import Extraction ExtrOcamlBasic.
 From Common Require Import Conv.
 From Gen Require Import C19.
 From C19 Require Import Model.
-Extraction "c19_model.ml" conv_anchor ityp_code M_lex M_parse M_parse_tokens M_explain_gsub M_explain_gpos.
+Extraction "c19_model.ml" conv_anchor ityp_code M_lex M_parse M_parse_tokens M_explain_gsub M_explain_gpos M_parse_nested M_explain_nested.
